@@ -259,9 +259,28 @@ let process_tattrs line =
   let op = next () in
   let dialect = next () in
   let mask = next_int () in
+  let skip = skip_of_mask mask in
+  if op = "K" then begin
+    (* <id> K <dialect> <mask> <schema charset|~> <schema collation|~> <table_xk> <table_xk>;
+       table_xk = <n> { <name> <expr> <flag> } <table_x without checks> *)
+    let pcs = next_opt () in
+    let pco = next_opt () in
+    let parse_xk () =
+      let nk = next_int () in
+      let ks = times nk (fun () -> let n = next_str () in let e = next_str () in let f = next_bool () in
+                                   { kx_name = n; kx_expr = e; kx_flag = f }) in
+      let tx = parse_table_x () in
+      { xk_table = tx; xk_checks = ks } in
+    let from = parse_xk () in
+    let to_ = parse_xk () in
+    let td = match dialect with
+      | "mysql" -> mysql_table_diff_xk (my_variant "default")
+      | "postgres" -> pg_table_diff_xk []
+      | d -> failwith ("dialect " ^ d) in
+    id ^ " " ^ (match td skip pcs pco from to_ with None -> "err" | Some cs -> show_subs cs) ^ "\n"
+  end else
   let from = parse_schema_tx () in
   let to_ = parse_schema_tx () in
-  let skip = skip_of_mask mask in
   let schema_diff, table_diff = match dialect with
     | "mysql" -> let v = my_variant "default" in mysql_schema_diff_tx v, mysql_table_diff_tx v
     | "postgres" -> pg_schema_diff_tx [], pg_table_diff_tx []
